@@ -130,19 +130,25 @@ class Interp:
         self.depth = 0
 
     # ------------------------------------------------------------- entry
-    def invoke(self, fname, args):
+    last_args = None
+
+    def invoke(self, fname, args, keep=False):
         """args: dict name -> value (host call of an exported function)"""
         f = [x for x in self.prog.funcs if x.name == fname and x.exported]
         if len(f) != 1:
             raise RefError(f"no unique exported function {fname}")
         f = f[0]
-        return self._run(f, [deep(args[n]) for _, n in f.params])
+        argv = [deep(args[n]) for _, n in f.params]
+        if keep:
+            self._keep = True
+        return self._run(f, argv)
 
     def _run(self, f, argvals):
         self.depth += 1
         if self.depth > 40:
             raise OutOfDomain("recursion depth")
         scopes = [{n: [t, v] for (t, n), v in zip(f.params, argvals)}]
+        top = self.depth == 1
         try:
             self.block(f.body, scopes)
             ret = None
@@ -150,6 +156,8 @@ class Interp:
             ret = r.v
         finally:
             self.depth -= 1
+            if top:
+                self.last_args = [scopes[0][n][1] for _, n in f.params]
         return ret
 
     # ------------------------------------------------------------- names
